@@ -1,14 +1,21 @@
 import Log4rsModel.ConfigDoc.LemmasRender
+import Log4rsModel.ConfigDoc.LemmasIsolation
+import Log4rsModel.ConfigDoc.Refine
 /-
 C14 — Config files mean what they say in every format; loading is total and lossy.
-Only property theorems and non-vacuity examples live here; helpers are in ConfigDoc/Lemmas*.lean.
+Only property theorems and non-vacuity examples live here; helpers are in ConfigDoc/Lemmas*.lean
+and ConfigDoc/Refine.lean.  Every `C14_*` theorem is about the model of the CURRENT code
+(`appenderEnvelopeLazy = true`: appender entries typed lazily inside `appenders_lossy`;
+`timeTriggerTotal = true`) or about the executable specification; theorems about earlier versions
+of the code are named `Hist_C14_*`.
 
 All theorems are about the model (`ConfigDoc/{Value,Schema,Pipeline}.lean`).  A document of any of
 the three formats enters the model as one `Value`; that the three parsers produce the same `Value`
-for equivalent documents is ASSUMED and validated by the harness (every case is rendered into YAML,
-JSON and TOML and loaded by the real code).  The one modelled difference between the front-ends —
-JSON and TOML accept a sequence where a derived struct is expected — is the parameter `ss`
-(`seqStructs`) of `interp`; every theorem holds for both values.
+for equivalent documents is ASSUMED (with the exceptions modelled in `frontEnd`) and validated by
+the harness, which renders every case into YAML, JSON and TOML and loads it with the real code.
+The calls that leave log4rs' configuration code (opening a log file, `PatternEncoder::new`,
+`TimeTrigger::new`) are the parameter `env : Env`; theorems hold for every `env` unless they say
+`env.NoPanic` / `env.Benign`.
 -/
 namespace Log4rs.ConfigDoc
 open Log4rs Log4rs.Literals Log4rs.Routing
@@ -74,19 +81,22 @@ theorem C14_unknown_key_logger (ss : Bool) (kvs lkvs l : Entries) (name k : Key)
 
 /-- inside an appender (its own config, its encoder, policy, trigger, roller — anything reached
 from the kind's config through propagating edges): the document is NOT rejected; the appender's
-entry is typed as `failed`, which `appenders_lossy` reports and drops (next theorem). -/
+entry — typed by the live entry schema `appenderEntryS = .lazy appenderLazyS` — comes out as
+`tagged kind filters (failed e)`, which `appenders_lossy` reports and drops
+(`C14_broken_appender_reported`). -/
 theorem C14_unknown_key_appender (ss : Bool) (akvs : Entries) (kind : Key)
     (es : List (Key × Typed)) (s : Schema) (fields : List Field) (kvs : Entries) (k : Key)
     (hkind : kindOf none akvs = .ok kind)
-    (hes : interpFields ss [dfl (c!"filters") (.list []) (.seqOf filterS)] akvs = .ok es)
+    (hes : interpFields ss [dfl (c!"filters") (.list []) (.seqOf (.lazy filterS))] akvs = .ok es)
     (hcase : caseOf [(c!"console", consoleAppenderS), (c!"file", fileAppenderS),
       (c!"rolling_file", rollingFileAppenderS)] kind = some s)
     (hsub : Sub ss s (.map (without [c!"kind", c!"filters"] akvs)) (.struct true fields) (.map kvs))
     (hk : k ∈ keys kvs) (hn : k ∉ fieldNames fields) :
-    ∃ e, interp ss appenderS (.map akvs) = .ok (.tagged kind es (.failed e)) := by
+    ∃ e, interp ss appenderEntryS (.map akvs) = .ok (.tagged kind es (.failed e)) := by
   obtain ⟨e, he⟩ := C14_unknown_key_rejected ss hsub hk hn
   refine ⟨e, ?_⟩
-  simp only [appenderS, interp, hkind, hes]
+  rw [appenderEntryS_live]
+  simp only [appenderLazyS, interp, hkind, hes]
   rw [interpCases_eq ss _ kind _ s hcase]
   simp only [fieldNames, dfl, List.map_cons, List.map_nil]
   rw [he]
@@ -105,18 +115,6 @@ theorem C14_unknown_key_tagged_section (ss : Bool) (dflt : Option Key)
     (mem_keys_without _ kvs k hk ?_) hn
   simpa [fieldNames] using hne
 
-/-- the four sections are of that shape (no reserved key besides `kind`) -/
-theorem C14_tagged_sections_reserve_only_kind :
-    (∃ c, encoderS = .tagged (some (c!"pattern")) false [] c)
-    ∧ (∃ c, policyS = .tagged (some (c!"compound")) false [] c)
-    ∧ (∃ c, triggerS = .tagged none false [] c) ∧ (∃ c, rollerS = .tagged none false [] c) :=
-  ⟨⟨_, rfl⟩, ⟨_, rfl⟩, ⟨_, rfl⟩, ⟨_, rfl⟩⟩
-
-/-- a `failed` appender entry is reported (`Appender(name, …)`) and dropped; it cannot panic -/
-theorem C14_failed_appender_reported (name kind : Key) (es : List (Key × Typed)) (e : Err) :
-    ∃ errs, appenderOutcome name (.tagged kind es (.failed e)) = (errs ++ [.appender name], .dropped) := by
-  exact ⟨_, rfl⟩
-
 /-- truthfully: the threshold filter's config does NOT deny unknown keys (no
 `deny_unknown_fields` on `ThresholdFilterConfig`); the statement's list does not include filters -/
 theorem C14_threshold_filter_ignores_unknown_key (ss : Bool) (kvs : Entries) (k : Key) (v : Value)
@@ -124,6 +122,87 @@ theorem C14_threshold_filter_ignores_unknown_key (ss : Bool) (kvs : Entries) (k 
     interp ss thresholdS (.map (kvs ++ [(k, v)])) = interp ss thresholdS (.map kvs) := by
   simp only [thresholdS, interp, interpFields, req, lookup_append_ne _ _ _ _ hk]
   rfl
+
+/-! ### malformed values -/
+
+/-- an unknown kind is rejected in every kind-tagged section (`Deserializers::deserialize`: "no …
+deserializer for kind … registered") -/
+theorem C14_unknown_kind_rejected (ss : Bool) (dflt : Option Key) (extras : List Field)
+    (cases : List (Key × Schema)) (kvs : Entries) (kind : Key) (es : List (Key × Typed))
+    (hkind : kindOf dflt kvs = .ok kind) (hes : interpFields ss extras kvs = .ok es)
+    (hno : caseOf cases kind = none) :
+    interp ss (.tagged dflt false extras cases) (.map kvs) = .error (.unknownKind kind)
+    ∧ interp ss (.tagged dflt true extras cases) (.map kvs) = .ok (.tagged kind es (.failed (.unknownKind kind))) := by
+  constructor <;> simp only [interp, hkind, hes, interpCases_unknown ss cases kind _ hno] <;> rfl
+
+/-- the scalar visitors accept exactly their value space: `u32` / `u64` the integers of the range
+(so `count: -1`, `base: 4294967296`, `min_size: -1` are rejected), booleans only booleans (not
+`"true"`, not `1`), strings only strings, levels the six names in any letter case, the console
+target exactly `stdout` / `stderr` -/
+theorem C14_malformed_leaf_rejected (v : Value) :
+    ((interpLeaf .u32 v).toOption.isSome ↔ ∃ n : Nat, v = .int n ∧ n ≤ U32_MAX)
+    ∧ ((interpLeaf .u64 v).toOption.isSome ↔ ∃ n : Nat, v = .int n ∧ n ≤ U64_MAX)
+    ∧ ((interpLeaf .bool v).toOption.isSome ↔ ∃ b, v = .bool b)
+    ∧ ((interpLeaf .str v).toOption.isSome ↔ ∃ s, v = .str s)
+    ∧ ((interpLeaf .level v).toOption.isSome ↔ ∃ s, v = .str s ∧ (parseLevel s).isSome)
+    ∧ ((interpLeaf .target v).toOption.isSome ↔ (v = .str (c!"stdout") ∨ v = .str (c!"stderr"))) := by
+  refine ⟨?_, ?_, ?_, ?_, ?_, ?_⟩
+  · cases v with
+    | int n =>
+      by_cases hc : 0 ≤ n ∧ n.toNat ≤ U32_MAX
+      · simp only [interpLeaf, hc, and_self, if_true, Except.toOption, Option.isSome_some, true_iff]
+        exact ⟨n.toNat, by congr 1; omega, hc.2⟩
+      · simp only [interpLeaf, hc, if_false, Except.toOption, Option.isSome_none, Bool.false_eq_true, false_iff]
+        rintro ⟨m, hm, hle⟩
+        simp only [Value.int.injEq] at hm
+        subst hm
+        exact hc ⟨by omega, by simpa using hle⟩
+    | _ => simp [interpLeaf, Except.toOption]
+  · cases v with
+    | int n =>
+      by_cases hc : 0 ≤ n ∧ n.toNat ≤ U64_MAX
+      · simp only [interpLeaf, hc, and_self, if_true, Except.toOption, Option.isSome_some, true_iff]
+        exact ⟨n.toNat, by congr 1; omega, hc.2⟩
+      · simp only [interpLeaf, hc, if_false, Except.toOption, Option.isSome_none, Bool.false_eq_true, false_iff]
+        rintro ⟨m, hm, hle⟩
+        simp only [Value.int.injEq] at hm
+        subst hm
+        exact hc ⟨by omega, by simpa using hle⟩
+    | _ => simp [interpLeaf, Except.toOption]
+  · cases v <;> simp [interpLeaf, Except.toOption]
+  · cases v <;> simp [interpLeaf, Except.toOption]
+  · cases v <;> simp [interpLeaf, Except.toOption]
+    rename_i s
+    cases parseLevel s <;> simp
+  · cases v <;> simp [interpLeaf, Except.toOption]
+    rename_i s
+    by_cases h1 : s = c!"stdout"
+    · simp [h1]
+    · by_cases h2 : s = c!"stderr"
+      · simp [h2]
+      · simp [h1, h2]
+
+/-- a required field that is absent makes its section fail (`missing field`) -/
+theorem C14_missing_required_field_rejected (ss deny : Bool) (fields : List Field) (kvs : Entries)
+    (k : Key) (s : Schema) (hf : (k, none, s) ∈ fields) (hl : lookup k kvs = none) :
+    ∃ e, interp ss (.struct deny fields) (.map kvs) = .error e := by
+  have hfe : ∃ e, interpFields ss fields kvs = .error e := by
+    induction fields with
+    | nil => cases hf
+    | cons f fs ih =>
+      obtain ⟨k1, d1, s1⟩ := f
+      simp only [interpFields]
+      rcases List.mem_cons.mp hf with h | h
+      · cases h; simp only [hl]; exact ⟨_, rfl⟩
+      · obtain ⟨e, he⟩ := ih h
+        split
+        · exact ⟨_, rfl⟩
+        · rw [he]; exact ⟨e, rfl⟩
+  obtain ⟨e, he⟩ := hfe
+  simp only [interp, he]
+  split
+  · exact ⟨_, rfl⟩
+  · exact ⟨e, rfl⟩
 
 /-! ### defaults -/
 
@@ -185,111 +264,134 @@ theorem C14_defaults (ss : Bool) (kvs : Entries) (t : Typed) :
   · exact kindOf_default _ kvs
   · exact kindOf_required kvs
 
+
 /-! ### loading is total; where it can panic -/
 
 /-- The pipelines are total functions into `Outcome` / `StrictResult`: `ok`, `err`, or an explicit
-`panic`.  Real-code panic sources considered on the load path (everything reachable from
-`Format::parse` and from the constructors the `Deserialize` impls call):
-  * `TimeTrigger::new` → `get_next_time`: `x % n` with `n = 0` under `modulate` (every unit);
-    `TimeDelta::seconds/minutes/…(n)` and `DateTime + TimeDelta` out of range for huge counts or
-    delays; `n as i32` / `n as u32` truncation followed by `with_ymd_and_hms(..).unwrap()`;
-    `LocalResult::unwrap` in a DST gap (F9, depends on zone and clock — C16's subject);
-  * `FixedWindowRollerBuilder::build`: returns `Err` for a pattern without `{}` — no panic;
-    `base + count` overflow (F11) happens at roll time, not at load time;
-  * `PatternEncoder::new`: the pattern parser (C11's subject; the harness uses one fixed pattern);
-  * `FileAppender::build` / `RollingFileAppenderBuilder::build`: `io::Result`, no unwrap;
-  * `serde_value` / derive code: no unwrap on user data; `ConfigBuilder::build_lossy`: none.
-The time-trigger items were real (findings C14/time-trigger-interval-zero-modulate and
--out-of-range, C16's subject) until /repo 80d997f made `TimeTrigger::new` total; the historical
-constructor is still in the model (`timeTriggerNewWith false`). -/
+`panic`.  The model has exactly these panic sources on the load path:
+  * the three components of `env : Env` — opening the log file, `PatternEncoder::new`,
+    `TimeTrigger::new` — whose panic freedom is the ASSUMPTION `env.NoPanic` (C11 and C16 are about
+    two of them; `realEnv_noPanic` shows it for the environment of the check runs);
+  * the duration visitor of `refresh_rate`: `humantime::parse_duration` (2.4.0) panics inside
+    `Duration::new` when a sum of exactly 10^9 ns is carried into `u64::MAX` seconds
+    (`durAdd`, flag `humantimeCarryPanics`) — a finding, reproduced on the real crate.
+Not modelled, hence assumed panic-free: the three parsers themselves (recursion limits, YAML alias
+expansion), serde derive and serde_value code, `handle_error`.  The FULL statement is therefore
+false of the code as it is: -/
 def C14_load_total_statement : Prop :=
-  ∀ (ss : Bool) (v : Value) (w : String), loadLossy ss v ≠ .panic w
+  ∀ (env : Env), env.NoPanic → ∀ (ss : Bool) (v : Value) (w : String), loadLossy env ss v ≠ .panic w
 
-/-- Loading never panics: for EVERY document the lossy pipeline returns `ok` or `err`.  (The only
-panic source of the model is the time-trigger constructor, total since the repair.) -/
-theorem C14_load_total : C14_load_total_statement := by
-  intro ss v w
-  have hT : ∀ u n m d w, timeTriggerNew u n m d ≠ .panic w := by
-    intro u n m d w
-    show timeTriggerNewWith timeTriggerTotal u n m d ≠ .panic w
-    rw [show timeTriggerTotal = true from rfl, timeTriggerNewWith_total]
-    simp
-  simp only [loadLossy, loadRaw]
-  cases hi : interp ss docS v with
-  | error e => simp
-  | ok doc =>
-    simp only [rawLoad]
-    cases ha : appendersLossy (Typed.asDict (doc.field (c!"appenders"))) with
-    | panic w' => exact absurd ha (appendersLossy_total hT _ w')
-    | ok p => simp
-    | err e => simp
-
-/-- strict loading never panics either -/
-theorem C14_load_total_strict (ss : Bool) (v : Value) : loadStrict ss v ≠ .panic := by
-  have h := C14_load_total ss v
-  simp only [loadLossy] at h
-  simp only [loadStrict]
-  cases hr : loadRaw ss v with
-  | panic w' => rw [hr] at h; exact absurd rfl (h w')
-  | ok r => simp only; split <;> (try split) <;> simp
-  | err e => simp
-
-/-- historical (before /repo 80d997f): the constructor panicked for `interval: 0` with
-`modulate: true` (`% 0`) and for a count of `i64::MAX` seconds (`TimeDelta::seconds`) -/
-theorem C14_time_trigger_historical_panics :
-    (timeTriggerNewWith false .second 0 true 0).isPanic = true
-    ∧ (timeTriggerNewWith false .second 9223372036854775807 false 0).isPanic = true := by
-  decide
-
-/-- the document that made the historical code panic -/
+/-- witness: `refresh_rate: "18446744073709551615s 1000000000ns"` -/
 def panicWitness : Value :=
-  .map [(c!"appenders", .map [(c!"a", .map [(c!"kind", .str (c!"rolling_file")),
-    (c!"path", .str (c!"a.log")),
-    (c!"policy", .map [
-      (c!"trigger", .map [(c!"kind", .str (c!"time")), (c!"interval", .int 0),
-        (c!"modulate", .bool true)]),
-      (c!"roller", .map [(c!"kind", .str (c!"delete"))])])])])]
+  .map [(c!"refresh_rate", .str (c!"18446744073709551615s 1000000000ns"))]
 
-/-- Independent of the repair (holds of the historical constructor too): a document all of whose
-time triggers are in the safe range (count not 0 under
-`modulate`; count and random delay ≤ 100000) never makes loading panic — lossy or strict. -/
-theorem C14_load_total_partial (ss : Bool) (v : Value) (doc : Typed)
-    (hdoc : interp ss docS v = .ok doc)
-    (hsafe : ∀ nt ∈ Typed.asDict (doc.field (c!"appenders")), appenderSafe nt.2 = true) :
-    (∀ w, loadLossy ss v ≠ .panic w) ∧ loadStrict ss v ≠ .panic := by
-  have h0 : ∀ w, loadRaw ss v ≠ .panic w := by
+theorem C14_load_total_refuted (hflag : humantimeCarryPanics = true) : ¬ C14_load_total_statement := by
+  intro h
+  have hp : humantimeCarryPanics = true → (loadLossy realEnv false panicWitness).isPanic = true := by decide
+  have hp := hp hflag
+  cases hl : loadLossy realEnv false panicWitness with
+  | panic w => exact h realEnv realEnv_noPanic false panicWitness w hl
+  | ok b => rw [hl] at hp; cases hp
+  | err e => rw [hl] at hp; cases hp
+
+/-- the only leaf visitor that can panic is the duration visitor, and only through `durAdd`'s carry -/
+theorem C14_panicked_only_from_duration (l : Leaf) (v : Value) (h : interpLeaf l v = .error .panicked) :
+    l = .duration ∧ ∃ s, v = .str s ∧ parseDurationFull s = .panic := by
+  cases l with
+  | duration =>
+    cases v with
+    | str s =>
+      refine ⟨rfl, s, rfl, ?_⟩
+      simp only [interpLeaf] at h
+      cases hp : parseDurationFull s with
+      | ok a b => rw [hp] at h; cases h
+      | err => rw [hp] at h; cases h
+      | panic => rfl
+    | _ => simp [interpLeaf] at h
+  | str => cases v <;> simp [interpLeaf] at h
+  | bool => cases v <;> simp [interpLeaf] at h
+  | level =>
+    cases v <;> simp only [interpLeaf] at h <;> try cases h
+    split at h <;> cases h
+  | u32 =>
+    cases v <;> simp only [interpLeaf] at h <;> try cases h
+    split at h <;> cases h
+  | u64 =>
+    cases v <;> simp only [interpLeaf] at h <;> try cases h
+    split at h <;> cases h
+  | size => simp only [interpLeaf] at h; split at h <;> cases h
+  | interval => simp only [interpLeaf] at h; split at h <;> cases h
+  | target =>
+    cases v <;> simp only [interpLeaf] at h <;> try cases h
+    split at h
+    · cases h
+    · split at h <;> cases h
+
+/-- the carry that panics: the nanoseconds add up to exactly 10^9 while the seconds are `u64::MAX` -/
+theorem C14_duration_carry_panic_iff (sec nsec : Nat) (acc : Nat × Nat)
+    (h1 : acc.2 + nsec ≤ U64_MAX) (h2 : acc.2 + nsec ≤ 1000000000) (h3 : acc.1 + sec ≤ U64_MAX) :
+    durAdd sec nsec acc = .panic ↔
+      humantimeCarryPanics = true ∧ acc.2 + nsec = 1000000000 ∧ acc.1 + sec = U64_MAX := by
+  have hn1 : ¬ acc.2 + nsec > U64_MAX := by omega
+  have hn2 : ¬ acc.2 + nsec > 1000000000 := by omega
+  have hs : ¬ sec > U64_MAX := by omega
+  have hn3 : ¬ acc.1 + sec > U64_MAX := by omega
+  simp only [durAdd, hn1, hn2, hs, hn3, if_false]
+  by_cases he : acc.2 + nsec = 1000000000
+  · simp only [he, if_true]
+    by_cases ht : acc.1 + sec + 1 > U64_MAX
+    · simp only [ht, if_true]
+      cases humantimeCarryPanics <;> simp <;> omega
+    · simp only [ht, if_false]
+      constructor
+      · intro h; cases h
+      · rintro ⟨_, _, h⟩; omega
+  · simp [he]
+
+/-- What holds: if the components of the environment do not panic and the duration visitor does
+not hit the carry, loading — lossy or strict — never panics, for EVERY document. -/
+theorem C14_load_total_partial (env : Env) (henv : env.NoPanic) (ss : Bool) (v : Value)
+    (hd : interp ss docS v ≠ .error .panicked) :
+    (∀ w, loadLossy env ss v ≠ .panic w) ∧ loadStrict env ss v ≠ .panic := by
+  have h0 : ∀ w, loadRaw env ss v ≠ .panic w := by
     intro w
-    simp only [loadRaw, hdoc, rawLoad]
-    cases ha : appendersLossy (Typed.asDict (doc.field (c!"appenders"))) with
-    | panic w' => exact absurd ha (appendersLossy_safe _ hsafe w')
-    | ok p => simp
-    | err e => simp
+    simp only [loadRaw]
+    cases hi : interp ss docS v with
+    | error e =>
+      cases e <;> first | exact absurd hi hd | simp
+    | ok doc =>
+      simp only [rawLoad]
+      cases ha : appendersLossy env (Typed.asDict (doc.field (c!"appenders"))) with
+      | panic w' => exact absurd ha (appendersLossy_np env henv _ w')
+      | ok p => simp
+      | err e => simp
   constructor
   · intro w
     simp only [loadLossy]
-    cases hr : loadRaw ss v with
+    cases hr : loadRaw env ss v with
     | panic w' => exact absurd hr (h0 w')
     | ok r => simp
     | err e => simp
   · simp only [loadStrict]
-    cases hr : loadRaw ss v with
+    cases hr : loadRaw env ss v with
     | panic w' => exact absurd hr (h0 w')
     | ok r => simp only; split <;> (try split) <;> simp
     | err e => simp
 
-/-- a document the front-end rejects is an `err`, never a panic, and strict loading says
-`errParse` -/
-theorem C14_rejected_document_is_error (ss : Bool) (v : Value) (e : Err)
-    (h : interp ss docS v = .error e) :
-    loadLossy ss v = .err e ∧ loadStrict ss v = .errParse := by
-  simp [loadLossy, loadStrict, loadRaw, h]
+/-- historical (before /repo 80d997f): the time trigger's constructor panicked for `interval: 0`
+with `modulate: true` (`% 0`) and for a count of `i64::MAX` seconds (`TimeDelta::seconds`) -/
+theorem Hist_C14_time_trigger_panics :
+    (timeTriggerNewWith false .second 0 true 0).isPanic = true
+    ∧ (timeTriggerNewWith false .second 9223372036854775807 false 0).isPanic = true := by
+  decide
 
-/-- strict loading accepts exactly when lossy loading has nothing to report -/
-theorem C14_strict_iff_nothing_reported (ss : Bool) (v : Value) :
-    loadStrict ss v = .ok ↔
-      ∃ b, loadLossy ss v = .ok b ∧ b.loadErrors = [] ∧ b.buildErrors = [] := by
+/-- a document the front-end rejects is an `err`, never a panic, and strict loading says
+`errParse`; strict loading accepts exactly when lossy loading has nothing to report -/
+theorem C14_strict_iff_nothing_reported (env : Env) (ss : Bool) (v : Value) :
+    loadStrict env ss v = .ok ↔
+      ∃ b, loadLossy env ss v = .ok b ∧ b.loadErrors = [] ∧ b.buildErrors = [] := by
   simp only [loadStrict, loadLossy]
-  cases hr : loadRaw ss v with
+  cases hr : loadRaw env ss v with
   | err e => simp
   | panic w => simp
   | ok r =>
@@ -306,67 +408,62 @@ theorem C14_strict_iff_nothing_reported (ss : Bool) (v : Value) :
 /-! ### lossy isolation -/
 
 /-- A broken appender is reported and removed; every other appender comes out exactly as from
-the table without it, in the same order, with the same reported errors. -/
-theorem C14_lossy_isolation_appender (xs ys : List (Key × Typed)) (name : Key) (t : Typed)
+the (typed) table without it, in the same order, with the same reported errors. -/
+theorem C14_lossy_isolation_appender (env : Env) (xs ys : List (Key × Typed)) (name : Key) (t : Typed)
     (d1 d2 : List AppenderDesc) (e1 e2 errs : List LoadErr)
-    (hx : appendersLossy xs = .ok (d1, e1)) (hy : appendersLossy ys = .ok (d2, e2))
-    (hbroken : appenderOutcome name t = (errs, .dropped)) :
-    appendersLossy (xs ++ (name, t) :: ys) = .ok (d1 ++ d2, e1 ++ (errs ++ e2))
-    ∧ appendersLossy (xs ++ ys) = .ok (d1 ++ d2, e1 ++ e2) := by
+    (hx : appendersLossy env xs = .ok (d1, e1)) (hy : appendersLossy env ys = .ok (d2, e2))
+    (hbroken : appenderOutcome env name t = (errs, .dropped)) :
+    appendersLossy env (xs ++ (name, t) :: ys) = .ok (d1 ++ d2, e1 ++ (errs ++ e2))
+    ∧ appendersLossy env (xs ++ ys) = .ok (d1 ++ d2, e1 ++ e2) := by
   constructor
   · rw [appendersLossy_append, hx]
     simp only [appendersLossy, hbroken, hy]
   · rw [appendersLossy_append, hx, hy]
 
-/-- what makes an appender broken: its config failed to type (unknown kind, unknown key, bad or
-missing field anywhere inside), or its constructor returned an error; it is then reported once -/
-theorem C14_broken_appender_reported (name kind : Key) (extras : List (Key × Typed)) (body : Typed)
-    (h : (∃ e, body = .failed e) ∨
-         (∃ e, constructAppender name
+/-- What makes an appender broken: its envelope did not type (`failed e` in place of the entry),
+its config did not type (unknown kind, unknown key, bad or missing field anywhere inside: body
+`failed e`), or its constructor returned an error.  It is then reported exactly once, after the
+reports of its own broken filters (none for a broken envelope: the filters were not looked at). -/
+theorem C14_broken_appender_reported (env : Env) (name : Key) (t : Typed)
+    (h : (∃ e, t = .failed e)
+      ∨ (∃ kind extras e, t = .tagged kind extras (.failed e))
+      ∨ (∃ kind extras body e, t = .tagged kind extras body ∧ constructAppender env name
             ((Typed.asList (tlookup (c!"filters") extras)).filterMap filterOutcome) kind body = .err e)) :
-    ∃ ferrs, appenderOutcome name (.tagged kind extras body) = (ferrs ++ [.appender name], .dropped)
+    ∃ ferrs, appenderOutcome env name t = (ferrs ++ [.appender name], .dropped)
       ∧ ∀ x ∈ ferrs, x = .filter name := by
-  rcases h with ⟨e, rfl⟩ | ⟨e, he⟩
-  · refine ⟨_, rfl, ?_⟩
-    intro x hx
+  have hall : ∀ (l : List Typed), ∀ x ∈ l.map (fun _ => LoadErr.filter name), x = .filter name := by
+    intro l x hx
     simp only [List.mem_map] at hx
     obtain ⟨_, _, rfl⟩ := hx
     rfl
+  rcases h with ⟨e, rfl⟩ | ⟨kind, extras, e, rfl⟩ | ⟨kind, extras, body, e, rfl, he⟩
+  · exact ⟨[], rfl, by simp⟩
+  · exact ⟨_, rfl, hall _⟩
   · cases body with
-    | failed e' =>
-      refine ⟨_, rfl, ?_⟩
-      intro x hx
-      simp only [List.mem_map] at hx
-      obtain ⟨_, _, rfl⟩ := hx
-      rfl
+    | failed e' => exact ⟨_, rfl, hall _⟩
     | _ =>
       all_goals
         refine ⟨((Typed.asList (tlookup (c!"filters") extras)).filter
-          (fun f => (filterOutcome f).isNone)).map (fun _ => LoadErr.filter name), ?_, ?_⟩
-      all_goals first
-        | (simp only [appenderOutcome, he])
-        | (intro x hx
-           simp only [List.mem_map] at hx
-           obtain ⟨_, _, rfl⟩ := hx
-           rfl)
+          (fun f => (filterOutcome f).isNone)).map (fun _ => LoadErr.filter name), ?_, hall _⟩
+      all_goals simp only [appenderOutcome, he]
 
-/-- A broken filter is reported and removed, the appender is KEPT and is otherwise exactly the
-appender of the document without that filter. -/
-theorem C14_lossy_isolation_filter (name kind fk : Key) (fx : List (Key × Typed)) (e : Err)
-    (fs1 fs2 : List Typed) (body : Typed) :
-    let bad := Typed.tagged fk fx (.failed e)
-    let withBad := appenderOutcome name (.tagged kind [(c!"filters", .list (fs1 ++ bad :: fs2))] body)
-    let without := appenderOutcome name (.tagged kind [(c!"filters", .list (fs1 ++ fs2))] body)
+/-- A broken filter — one whose envelope (`failed e` in place of the entry) or whose config
+(`tagged kind extras (failed e)`) did not type — is reported and removed; the appender is KEPT and
+is otherwise exactly the appender of the (typed) entry without that filter. -/
+theorem C14_lossy_isolation_filter (env : Env) (name kind : Key) (bad : Typed)
+    (hbad : filterOutcome bad = none) (fs1 fs2 : List Typed) (body : Typed) :
+    let withBad := appenderOutcome env name (.tagged kind [(c!"filters", .list (fs1 ++ bad :: fs2))] body)
+    let without := appenderOutcome env name (.tagged kind [(c!"filters", .list (fs1 ++ fs2))] body)
     withBad.2 = without.2 ∧ withBad.1 = LoadErr.filter name :: without.1 := by
-  intro bad withBad without
+  intro withBad without
   have hlev : (fs1 ++ bad :: fs2).filterMap filterOutcome = (fs1 ++ fs2).filterMap filterOutcome := by
-    simp [List.filterMap_append, List.filterMap_cons, bad, filterOutcome]
+    simp [List.filterMap_append, List.filterMap_cons, hbad]
   have hferr : ((fs1 ++ bad :: fs2).filter (fun f => (filterOutcome f).isNone)).map
         (fun _ => LoadErr.filter name) =
       LoadErr.filter name :: ((fs1 ++ fs2).filter (fun f => (filterOutcome f).isNone)).map
         (fun _ => LoadErr.filter name) := by
-    have hbad : (filterOutcome bad).isNone = true := rfl
-    simp only [List.filter_append, List.map_append, List.filter_cons, hbad, if_true, List.map_cons]
+    have hb : (filterOutcome bad).isNone = true := by rw [hbad]; rfl
+    simp only [List.filter_append, List.map_append, List.filter_cons, hb, if_true, List.map_cons]
     exact const_map_shift _ _ _
   simp only [withBad, without, appenderOutcome, tlookup, if_true, Typed.asList, hlev, hferr]
   cases body with
@@ -376,181 +473,266 @@ theorem C14_lossy_isolation_filter (name kind fk : Key) (fx : List (Key × Typed
       simp only
       split <;> exact ⟨rfl, rfl⟩
 
+/-- which typed filter entries are broken -/
+theorem C14_broken_filter_forms (e : Err) (kind : Key) (extras : List (Key × Typed)) :
+    filterOutcome (.failed e) = none ∧ filterOutcome (.tagged kind extras (.failed e)) = none :=
+  ⟨rfl, rfl⟩
+
+/-- The appender table cannot reject the document: whatever the entries are, each is typed or
+recorded as `failed`; and filter entries cannot fail their appender's envelope. -/
+theorem C14_lossy_isolation_table_total (ss : Bool) (kvs : Entries) (xs : List Value) :
+    (∃ ts, interp ss (.mapOf appenderEntryS) (.map kvs) = .ok (.dict ts))
+    ∧ (∃ ts, interp ss (.seqOf (.lazy filterS)) (.seq xs) = .ok (.list ts)) := by
+  constructor
+  · obtain ⟨ts, h⟩ := mapEntries_total (fun v => interp ss appenderEntryS v)
+      (fun v => by rw [appenderEntryS_live]; exact interp_lazy_total ss appenderLazyS v) kvs
+    exact ⟨ts, by rw [interp_mapOf, h]⟩
+  · obtain ⟨ts, h⟩ := mapVals_total (fun v => interp ss (.lazy filterS) v)
+      (fun v => interp_lazy_total ss filterS v) xs
+    exact ⟨ts, by rw [interp_seqOf, h]⟩
+
+/-- what a broken appender ENVELOPE is: the entry is not a map, or its `kind` is missing or not a
+string, or its `filters` is not a sequence; such an entry is typed `failed` -/
+theorem C14_broken_envelope (ss : Bool) (v : Value)
+    (h : v.isMap = false
+      ∨ (∃ kvs e, v = .map kvs ∧ kindOf none kvs = .error e)
+      ∨ (∃ kvs f, v = .map kvs ∧ lookup (c!"filters") kvs = some f ∧ (∀ xs, f ≠ .seq xs))) :
+    ∃ e, interp ss appenderLazyS v = .error e ∧ interp ss appenderEntryS v = .ok (.failed e) := by
+  have key : ∃ e, interp ss appenderLazyS v = .error e := by
+    rcases h with h | ⟨kvs, e, rfl, hk⟩ | ⟨kvs, f, rfl, hf, hns⟩
+    · cases v with
+      | map kvs => simp [Value.isMap] at h
+      | _ => exact ⟨.invalidType, by simp only [appenderLazyS, interp]⟩
+    · exact ⟨e, by simp only [appenderLazyS, interp, hk]⟩
+    · cases hk : kindOf none kvs with
+      | error e => exact ⟨e, by simp only [appenderLazyS, interp, hk]⟩
+      | ok kind =>
+        refine ⟨.invalidType, ?_⟩
+        have hfi : interp ss (.seqOf (.lazy filterS)) f = .error .invalidType := by
+          cases f <;> first | exact absurd rfl (hns _) | simp only [interp]
+        simp only [appenderLazyS, interp, hk, interpFields, dfl, hf, hfi]
+  obtain ⟨e, he⟩ := key
+  exact ⟨e, he, by rw [appenderEntryS_live]; exact interp_lazy_error ss _ v e he⟩
+
 /-- the typed appender table is built entry by entry: removing one entry of the document's
 `appenders` map leaves the typing of every other entry unchanged -/
-theorem C14_lossy_isolation_document (ss : Bool) (xs ys : Entries) (name : Key) (v : Value)
-    (txs tys : List (Key × Typed)) (t : Typed)
-    (hx : interp ss (.mapOf appenderS) (.map xs) = .ok (.dict txs))
-    (hy : interp ss (.mapOf appenderS) (.map ys) = .ok (.dict tys))
-    (hv : interp ss appenderS v = .ok t) :
-    interp ss (.mapOf appenderS) (.map (xs ++ (name, v) :: ys)) = .ok (.dict (txs ++ (name, t) :: tys))
-    ∧ interp ss (.mapOf appenderS) (.map (xs ++ ys)) = .ok (.dict (txs ++ tys)) := by
-  have ex : mapEntries (fun v => interp ss appenderS v) xs = .ok txs := by
-    simp only [interp] at hx
-    cases h : mapEntries (fun v => interp ss appenderS v) xs with
-    | error e => rw [h] at hx; cases hx
-    | ok ts => rw [h] at hx; cases hx; rfl
-  have ey : mapEntries (fun v => interp ss appenderS v) ys = .ok tys := by
-    simp only [interp] at hy
-    cases h : mapEntries (fun v => interp ss appenderS v) ys with
-    | error e => rw [h] at hy; cases hy
-    | ok ts => rw [h] at hy; cases hy; rfl
-  have ev : mapEntries (fun v => interp ss appenderS v) ((name, v) :: ys) = .ok ((name, t) :: tys) := by
-    simp only [mapEntries, hv, ey]
-  constructor
-  · simp only [interp, mapEntries_append _ xs _ txs _ ex ev]
-  · simp only [interp, mapEntries_append _ xs _ txs _ ex ey]
+theorem C14_lossy_isolation_table (ss : Bool) (xs ys : Entries) (name : Key) (v : Value) :
+    ∃ txs t tys,
+      interp ss appenderEntryS v = .ok t
+      ∧ interp ss (.mapOf appenderEntryS) (.map (xs ++ (name, v) :: ys)) = .ok (.dict (txs ++ (name, t) :: tys))
+      ∧ interp ss (.mapOf appenderEntryS) (.map (xs ++ ys)) = .ok (.dict (txs ++ tys)) := by
+  obtain ⟨txs, t, tys, _, _, ht, h1, h2⟩ := mapEntries_lazy_split ss appenderLazyS xs ys name v
+  refine ⟨txs, t, tys, by rw [appenderEntryS_live]; exact ht, ?_, ?_⟩
+  · rw [appenderEntryS_live, interp_mapOf, h1]
+  · rw [appenderEntryS_live, interp_mapOf, h2]
 
-/-- root, loggers and refresh rate do not depend on the appender table's content at all, and the
-builder fragment only strips: dangling names are removed from the root and from every kept logger
-and each is reported; levels, additivity, order and the surviving appenders are untouched. -/
+/-- END TO END, on the live schema: take any document whose `appenders` table has an entry `name`
+that is broken — its envelope does not type, or its envelope types and its config does not (unknown
+key anywhere inside, unknown kind, wrong type, missing field: `C14_unknown_key_appender`,
+`C14_unknown_kind_rejected`, …).  If lossy loading accepts the document, then it accepts the
+document without that entry too, and the two results are the same configuration — same surviving
+appenders, root, loggers, refresh rate, same builder reports (the references to `name` are dangling
+in both) — except that the first additionally reports the broken appender, once, after the reports
+of its own broken filters. -/
+theorem C14_lossy_isolation_end_to_end (env : Env) (ss : Bool) (pre post xs ys : Entries) (name : Key)
+    (v : Value) (e : Err) (bw : Built)
+    (hpre : c!"appenders" ∉ keys pre)
+    (hbad : interp ss appenderLazyS v = .error e
+      ∨ ∃ k es, interp ss appenderLazyS v = .ok (.tagged k es (.failed e)))
+    (hw : loadLossy env ss (.map (pre ++ (c!"appenders", .map (xs ++ (name, v) :: ys)) :: post)) = .ok bw) :
+    ∃ bo fe, loadLossy env ss (.map (pre ++ (c!"appenders", .map (xs ++ ys)) :: post)) = .ok bo
+      ∧ bw.appenders = bo.appenders ∧ bw.rootLevel = bo.rootLevel ∧ bw.rootAppenders = bo.rootAppenders
+      ∧ bw.loggers = bo.loggers ∧ bw.refresh = bo.refresh ∧ bw.buildErrors = bo.buildErrors
+      ∧ bw.loadErrors.Perm (bo.loadErrors ++ (fe ++ [.appender name])) ∧ ∀ x ∈ fe, x = .filter name := by
+  -- the typed table with and without the entry
+  obtain ⟨txs, t, tys, ht, hX, hX'⟩ := C14_lossy_isolation_table ss xs ys name v
+  -- the broken entry is dropped with a report
+  have hdrop : ∃ fe, appenderOutcome env name t = (fe ++ [.appender name], .dropped)
+      ∧ ∀ x ∈ fe, x = .filter name := by
+    rw [appenderEntryS_live] at ht
+    rcases hbad with he | ⟨k, es, he⟩
+    · rw [interp_lazy_error ss _ v e he] at ht
+      cases ht
+      exact C14_broken_appender_reported env name _ (Or.inl ⟨e, rfl⟩)
+    · rw [interp_lazy_ok ss _ v _ he] at ht
+      cases ht
+      exact C14_broken_appender_reported env name _ (Or.inr (Or.inl ⟨k, es, e, rfl⟩))
+  obtain ⟨fe, hout, hfe⟩ := hdrop
+  -- the document with the entry is typed
+  simp only [loadLossy, loadRaw] at hw
+  cases hi : interp ss docS (.map (pre ++ (c!"appenders", .map (xs ++ (name, v) :: ys)) :: post)) with
+  | error er => rw [hi] at hw; cases er <;> simp at hw
+  | ok doc =>
+    rw [hi] at hw
+    have hdS : docS = .struct true [optF (c!"refresh_rate") (.leaf .duration), dfl (c!"root") rootDefault rootS,
+        dfl (c!"appenders") (.dict []) (.mapOf appenderEntryS), dfl (c!"loggers") (.dict []) (.mapOf loggerS)] := rfl
+    rw [hdS] at hi
+    obtain ⟨ts, rfl, hts⟩ := interp_struct_ok ss true _ _ doc hi
+    -- … and so is the document without it, with the same typed fields elsewhere
+    have hi' := interp_struct_replace ss true _ (c!"appenders") (.map (xs ++ (name, v) :: ys))
+      (.map (xs ++ ys)) pre post hpre (.dict (txs ++ tys))
+      (by intro d s hm
+          simp only [optF, dfl, List.mem_cons, Prod.mk.injEq, List.not_mem_nil, or_false] at hm
+          rcases hm with ⟨h, _⟩ | ⟨h, _⟩ | ⟨_, _, rfl⟩ | ⟨h, _⟩
+          · exact absurd h (by decide)
+          · exact absurd h (by decide)
+          · exact hX'
+          · exact absurd h (by decide)) ts hi
+    have hApp : tlookup (c!"appenders") ts = some (.dict (txs ++ (name, t) :: tys)) :=
+      interpFields_present ss _ _ ts (c!"appenders") (some (.dict [])) (.mapOf appenderEntryS) _ _
+        (by decide) (by simp [dfl]) (lookup_mid _ _ pre post hpre) hX hts
+    have hApp' : tlookup (c!"appenders") (setT (c!"appenders") (.dict (txs ++ tys)) ts) = some (.dict (txs ++ tys)) :=
+      tlookup_setT_eq _ _ ts (by rw [hApp]; rfl)
+    have hne : ∀ k, k ≠ c!"appenders" →
+        tlookup k (setT (c!"appenders") (.dict (txs ++ tys)) ts) = tlookup k ts :=
+      fun k hk => tlookup_setT_ne k _ _ ts hk
+    -- `appenders_lossy` on both tables
+    simp only at hw
+    rw [rawLoad_record, hApp] at hw
+    simp only [Typed.asDict] at hw
+    cases hal : appendersLossy env (txs ++ (name, t) :: tys) with
+    | err er => rw [hal] at hw; cases hw
+    | panic w => rw [hal] at hw; cases hw
+    | ok p =>
+      obtain ⟨ds, es⟩ := p
+      rw [hal] at hw
+      obtain ⟨d1, e1, d2, e2, _, _, hds, hes, hal'⟩ :=
+        appendersLossy_split env txs tys name t _ ds es hout hal
+      simp only [Outcome.ok.injEq] at hw
+      subst hw
+      rw [← hdS] at hi'
+      have hlo : loadLossy env ss (.map (pre ++ (c!"appenders", .map (xs ++ ys)) :: post)) =
+          .ok (buildLossyNames (rawOf ts (d1 ++ d2) (e1 ++ e2))) := by
+        simp only [loadLossy, loadRaw, hi']
+        rw [rawLoad_record, hApp']
+        simp only [Typed.asDict, hal', rawOf_setT]
+      refine ⟨_, fe, hlo, ?_⟩
+      subst hds hes
+      refine ⟨rfl, rfl, rfl, rfl, rfl, rfl, ?_, hfe⟩
+      show (e1 ++ ((fe ++ [LoadErr.appender name]) ++ e2)).Perm ((e1 ++ e2) ++ (fe ++ [LoadErr.appender name]))
+      rw [List.append_assoc e1 e2]
+      exact List.Perm.append_left e1 List.perm_append_comm
+
+/-- Dangling references, and bad logger names, in closed form: the builder fragment keeps the
+appenders, root level and refresh rate; strips from the root and from every KEPT logger exactly the
+names that are not surviving appenders (order, levels and additivity untouched); drops exactly the
+loggers whose name is not well-formed; and reports exactly one `nonexistent` per stripped
+reference and one `badLoggerName` per dropped logger — nothing else. -/
 theorem C14_lossy_isolation_dangling (r : RawLoad) :
     let b := buildLossyNames r
     let known := r.appenders.map (·.name)
     b.appenders = r.appenders ∧ b.rootLevel = r.rootLevel ∧ b.refresh = r.refresh
     ∧ b.loadErrors = r.errors
     ∧ b.rootAppenders = r.rootAppenders.filter (known.contains ·)
-    ∧ (∀ n ∈ r.rootAppenders, n ∉ known → BuildErr.nonexistent n ∈ b.buildErrors)
-    ∧ (∀ n ∈ b.rootAppenders, n ∈ known) := by
+    ∧ b.loggers = (r.loggers.filter (fun l => checkLoggerName l.name)).map
+        (fun l => { l with appenders := l.appenders.filter (known.contains ·) })
+    ∧ b.buildErrors = (r.rootAppenders.filter (!known.contains ·)).map BuildErr.nonexistent
+        ++ r.loggers.flatMap (fun l => if checkLoggerName l.name
+            then (l.appenders.filter (!known.contains ·)).map BuildErr.nonexistent
+            else [BuildErr.badLoggerName l.name]) := by
   intro b known
-  refine ⟨rfl, rfl, rfl, rfl, rfl, ?_, ?_⟩
-  · intro n hn hk
-    show BuildErr.nonexistent n ∈ (stripRefs known r.rootAppenders).2 ++ (buildLoggers known r.loggers).2
+  obtain ⟨h1, h2⟩ := buildLoggers_closed known r.loggers
+  refine ⟨rfl, rfl, rfl, rfl, rfl, h1, ?_⟩
+  show (stripRefs known r.rootAppenders).2 ++ (buildLoggers known r.loggers).2 = _
+  rw [h2]
+  rfl
+
+/-- a dropped appender's name is no longer known: references to it are stripped and reported like
+any other dangling reference (the interaction "dropped appender ⇒ its references dangle") -/
+theorem C14_dropped_appender_references_dangle (r : RawLoad) (a : Key)
+    (ha : a ∉ r.appenders.map (·.name)) :
+    a ∉ (buildLossyNames r).rootAppenders
+    ∧ (a ∈ r.rootAppenders → BuildErr.nonexistent a ∈ (buildLossyNames r).buildErrors) := by
+  obtain ⟨_, _, _, _, hr, _, he⟩ := C14_lossy_isolation_dangling r
+  constructor
+  · rw [hr]
+    simp only [List.mem_filter, not_and]
+    intro _ hc
+    exact ha (by simpa using hc)
+  · intro hm
+    rw [he]
     apply List.mem_append_left
-    simp only [stripRefs, List.mem_map, List.mem_filter]
-    exact ⟨n, ⟨hn, by simpa using hk⟩, rfl⟩
-  · intro n hn
-    have : n ∈ r.rootAppenders.filter (known.contains ·) := hn
-    simp only [List.mem_filter] at this
-    simpa using this.2
+    simp only [List.mem_map, List.mem_filter]
+    exact ⟨a, ⟨hm, by simpa using ha⟩, rfl⟩
 
-/-! ### after the lazy-envelope repair (`docSWith true`)
-These theorems are stated on the repaired schema explicitly, so they compile whatever the current
-value of the model flag `appenderEnvelopeLazy` is. -/
-
-theorem appenderEntrySWith_true : appenderEntrySWith true = .lazy appenderLazyS := rfl
-
-/-- with the lazy envelope the appender table cannot reject the document any more: whatever the
-entries are, each is typed or recorded as `failed` -/
-theorem C14_lossy_isolation_table_total_fixed (ss : Bool) (kvs : Entries) :
-    ∃ ts, interp ss (.mapOf (appenderEntrySWith true)) (.map kvs) = .ok (.dict ts) := by
-  obtain ⟨ts, h⟩ := mapEntries_total (fun v => interp ss (appenderEntrySWith true) v)
-    (fun v => by rw [appenderEntrySWith_true]; exact interp_lazy_total ss appenderLazyS v) kvs
-  exact ⟨ts, by simp only [interp, h]⟩
-
-/-- what a broken appender ENVELOPE is: the entry is not a map, or its `kind` is missing or not a
-string, or its `filters` is not a sequence -/
-theorem C14_broken_envelope_fixed (ss : Bool) (v : Value)
-    (h : v.isMap = false
-      ∨ (∃ kvs e, v = .map kvs ∧ kindOf none kvs = .error e)
-      ∨ (∃ kvs f, v = .map kvs ∧ lookup (c!"filters") kvs = some f ∧ (∀ xs, f ≠ .seq xs))) :
-    ∃ e, interp ss appenderLazyS v = .error e := by
-  rcases h with h | ⟨kvs, e, rfl, hk⟩ | ⟨kvs, f, rfl, hf, hns⟩
-  · cases v with
-    | map kvs => simp [Value.isMap] at h
-    | _ => exact ⟨.invalidType, by simp only [appenderLazyS, interp]⟩
-  · exact ⟨e, by simp only [appenderLazyS, interp, hk]⟩
-  · cases hk : kindOf none kvs with
-    | error e => exact ⟨e, by simp only [appenderLazyS, interp, hk]⟩
-    | ok kind =>
-      refine ⟨.invalidType, ?_⟩
-      have hfi : interp ss (.seqOf (.lazy filterS)) f = .error .invalidType := by
-        cases f <;> first | exact absurd rfl (hns _) | simp only [interp]
-      simp only [appenderLazyS, interp, hk, interpFields, dfl, hf, hfi]
-
-/-- A broken appender envelope is reported (`Appender(name, …)`) and only that appender is dropped:
-the document loads, every other entry of the table is typed exactly as in the document without the
-broken entry, and `appenders_lossy` yields the same appenders in the same order with the same
-errors plus the one for `name`. -/
-theorem C14_lossy_isolation_envelope_fixed (ss : Bool) (xs ys : Entries) (name : Key) (v : Value)
-    (e : Err) (txs tys : List (Key × Typed)) (d1 d2 : List AppenderDesc) (e1 e2 : List LoadErr)
-    (hx : interp ss (.mapOf (appenderEntrySWith true)) (.map xs) = .ok (.dict txs))
-    (hy : interp ss (.mapOf (appenderEntrySWith true)) (.map ys) = .ok (.dict tys))
-    (hbroken : interp ss appenderLazyS v = .error e)
-    (hlx : appendersLossy txs = .ok (d1, e1)) (hly : appendersLossy tys = .ok (d2, e2)) :
-    interp ss (.mapOf (appenderEntrySWith true)) (.map (xs ++ (name, v) :: ys)) =
-        .ok (.dict (txs ++ (name, .failed e) :: tys))
-    ∧ appendersLossy (txs ++ (name, .failed e) :: tys) = .ok (d1 ++ d2, e1 ++ ([.appender name] ++ e2))
-    ∧ interp ss (.mapOf (appenderEntrySWith true)) (.map (xs ++ ys)) = .ok (.dict (txs ++ tys))
-    ∧ appendersLossy (txs ++ tys) = .ok (d1 ++ d2, e1 ++ e2) := by
-  have hv : interp ss (appenderEntrySWith true) v = .ok (.failed e) := by
-    rw [appenderEntrySWith_true]; exact interp_lazy_error ss _ v e hbroken
-  obtain ⟨h1, h2⟩ := interp_mapOf_insert ss _ xs ys name v txs tys _ hx hy hv
-  obtain ⟨h3, h4⟩ := C14_lossy_isolation_appender txs tys name (.failed e) d1 d2 e1 e2
-    [.appender name] hlx hly rfl
-  exact ⟨h1, h3, h2, h4⟩
-
-/-- a well-formed envelope is typed exactly as before the repair -/
-theorem C14_envelope_ok_fixed (ss : Bool) (v : Value) (t : Typed)
-    (h : interp ss appenderLazyS v = .ok t) : interp ss (appenderEntrySWith true) v = .ok t := by
-  rw [appenderEntrySWith_true]; exact interp_lazy_ok ss _ v t h
-
-/-- filter entries cannot fail the appender's envelope any more -/
-theorem C14_filter_entries_total_fixed (ss : Bool) (xs : List Value) :
-    ∃ ts, interp ss (.seqOf (.lazy filterS)) (.seq xs) = .ok (.list ts) := by
-  obtain ⟨ts, h⟩ := mapVals_total (fun v => interp ss (.lazy filterS) v)
-    (fun v => interp_lazy_total ss filterS v) xs
-  refine ⟨ts, ?_⟩
-  simp only [interp] at h ⊢
-  rw [h]
-
-/-- A filter entry with a broken envelope (not a map, `kind` missing or not a string: typed as
-`failed`) is reported (`Filter(name, …)`) and only that filter is dropped; the appender is KEPT and
-is otherwise exactly the appender of the document without that filter entry. -/
-theorem C14_lossy_isolation_filter_fixed (name kind : Key) (e : Err)
-    (fs1 fs2 : List Typed) (body : Typed) :
-    let bad := Typed.failed e
-    let withBad := appenderOutcome name (.tagged kind [(c!"filters", .list (fs1 ++ bad :: fs2))] body)
-    let without := appenderOutcome name (.tagged kind [(c!"filters", .list (fs1 ++ fs2))] body)
-    withBad.2 = without.2 ∧ withBad.1 = LoadErr.filter name :: without.1 := by
-  intro bad withBad without
-  have hlev : (fs1 ++ bad :: fs2).filterMap filterOutcome = (fs1 ++ fs2).filterMap filterOutcome := by
-    simp [List.filterMap_append, List.filterMap_cons, bad, filterOutcome]
-  have hferr : ((fs1 ++ bad :: fs2).filter (fun f => (filterOutcome f).isNone)).map
-        (fun _ => LoadErr.filter name) =
-      LoadErr.filter name :: ((fs1 ++ fs2).filter (fun f => (filterOutcome f).isNone)).map
-        (fun _ => LoadErr.filter name) := by
-    have hbad : (filterOutcome bad).isNone = true := rfl
-    simp only [List.filter_append, List.map_append, List.filter_cons, hbad, if_true, List.map_cons]
-    exact const_map_shift _ _ _
-  simp only [withBad, without, appenderOutcome, tlookup, if_true, Typed.asList, hlev, hferr]
-  cases body with
-  | failed e' => exact ⟨rfl, rfl⟩
-  | _ =>
-    all_goals
-      simp only
-      split <;> exact ⟨rfl, rfl⟩
+/-- REFINEMENT to C13 and C01.  On the builder that `deserialize()` fills (`toInput`; appender and
+logger names are distinct because they are map keys) the fragment `buildLossyNames` IS C13's model
+of `ConfigBuilder::build_lossy` (`Routing.buildLossy`): same configuration, same errors.  Hence the
+result is `Valid`, and C01's theorem applies to it: the model of `Logger::log` (`Tree.deliver`)
+delivers a record to exactly the attachments `Tree.specDeliver` lists — the list the observation
+`written` of this slice is computed from. -/
+theorem C14_builder_refines_C13_C01 (r : RawLoad)
+    (hA : (r.appenders.map (·.name)).Nodup) (hL : (r.loggers.map (·.name)).Nodup) :
+    (buildLossy (toInput r)).config = (buildLossyNames r).config
+    ∧ (buildLossy (toInput r)).errors = (buildLossyNames r).buildErrors.map toCfgError
+    ∧ Valid (buildLossyNames r).config
+    ∧ ∀ target lvl, Tree.deliver (buildLossyNames r).config target lvl
+        = some (Tree.specDeliver (buildLossyNames r).config target lvl) := by
+  obtain ⟨h1, h2⟩ := buildLossyNames_refines r hA hL
+  have hv := built_valid r hA hL
+  exact ⟨h1, h2, hv, fun t l => Tree.deliver_eq_spec _ hv t l⟩
 
 /-! ### the document of a logical configuration -/
 
-/-- FULL statement (not proved in this form): every logical configuration, rendered with any
-subset of its optional keys omitted and with the entries of every map in any order, loads to its
-meaning. -/
-def C14_render_interp_statement : Prop :=
-  ∀ (ss : Bool) (cfg : LogicalConfig) (seed : Nat),
-    (cfg.appenders.map (·.name)).Nodup → (cfg.loggers.map (·.name)).Nodup →
-    (∀ a ∈ cfg.appenders, a.kind ≤ 2 ∧
-      (∀ f ∈ a.filters.getD [], (parseLevel f).isSome) ∧ constructibleL a) →
-    (∀ l ∈ cfg.loggers, (parseLevel l.level).isSome) →
-    (∀ t, cfg.refresh = some t → (parseDuration t).isSome) →
-    (∀ r t, cfg.root = some r → r.level = some t → (parseLevel t).isSome) →
-    ∃ r, loadRaw ss (shuffle seed (render cfg)) = .ok r ∧
-      r.errors = [] ∧ r.rootLevel = (meaning cfg).rootLevel ∧
-      r.rootAppenders = (meaning cfg).rootAppenders ∧ r.refresh = (meaning cfg).refresh ∧
-      r.loggers.Perm (meaning cfg).loggers ∧ r.appenders.Perm (meaning cfg).appenders
-where
-  constructibleL (a : AppL) : Prop :=
-    a.kind = 0 ∨ (a.path ≠ [] ∧ (a.kind = 1 ∨
-      (match a.trig with
-       | .size l => (parseSize l).toOption.isSome
-       | .time i m d => ∃ u n, parseInterval i = .ok (u, n) ∧
-           timeSafe u n (m.getD false) (d.getD 0) = true ∧ d.getD 0 ≤ U64_MAX
-       | .onstartup m => m.getD 1 ≤ U64_MAX) ∧
-      (match a.roll with
-       | .delete => True
-       | .window b n => b.getD 0 ≤ U32_MAX ∧ n ≤ U32_MAX)))
+/-- PER APPENDER: the section rendered from a well-formed logical appender (any kind; any subset of
+its optional keys; encoder, policy kind, trigger and roller of every kind) is typed by the live
+entry schema, and `appenders_lossy` turns it into exactly the component its meaning prescribes,
+reporting exactly its broken filters. -/
+theorem C14_render_interp_app (env : Env) (henv : env.Benign) (ss : Bool) (a : AppL) (d : AppenderDesc)
+    (hwf : wfApp a) (hd : meaningApp a = some d) :
+    ∃ t, interp ss appenderEntryS (renderApp a) = .ok t
+      ∧ appenderOutcome env a.name t = (filterErrs a, .kept d) := by
+  refine ⟨typedApp a, ?_, appenderOutcome_typed env henv a d hwf.1 hd⟩
+  rw [appenderEntryS_live]
+  exact interp_app ss a hwf
 
-/-- Proved part 1 — key order inside a section does not matter: a struct section is interpreted
+/-- THE DOCUMENT MEANS WHAT IT SAYS (canonical key order): every well-formed logical configuration
+— refresh rate, root, any number of loggers and of appenders of all kinds with all their
+sub-sections, every subset of optional keys omitted, level names in any letter case — rendered
+into a document loads, through the lossy pipeline up to the builder input, to exactly its meaning:
+the components the programmatic builders would be given, and no reports other than those of broken
+filters. -/
+theorem C14_render_interp (env : Env) (henv : env.Benign) (ss : Bool) (cfg : LogicalConfig)
+    (hwf : WF cfg) (hb : ∀ a ∈ cfg.appenders, (meaningApp a).isSome) :
+    loadRaw env ss (render cfg) = .ok (meaning cfg) :=
+  loadRaw_render env henv ss cfg hwf hb
+
+/-- EQUIVALENCE WITH THE PROGRAMMATIC CONFIGURATION: loading the document of a logical
+configuration gives the same `Built` — hence the same observation, in particular the same
+deliveries of every probe record to every appender (`written`, i.e. C01's `specDeliver`) — as
+handing the components of its meaning to the builder directly; in both formats families. -/
+theorem C14_equiv_programmatic (env : Env) (henv : env.Benign) (cfg : LogicalConfig)
+    (hwf : WF cfg) (hb : ∀ a ∈ cfg.appenders, (meaningApp a).isSome) (ss : Bool) :
+    loadLossy env ss (render cfg) = .ok (buildLossyNames (meaning cfg))
+    ∧ loadStrict env ss (render cfg) = strictOf (meaning cfg)
+    ∧ ∀ probes prog, renderLossy probes prog (loadLossy env ss (render cfg))
+        = renderBuilt (buildLossyNames (meaning cfg)) probes prog := by
+  have h := C14_render_interp env henv ss cfg hwf hb
+  refine ⟨by simp only [loadLossy, h], ?_, fun probes prog => by simp only [loadLossy, h, renderLossy]⟩
+  simp only [loadStrict, h, strictOf]
+
+/-- the environment of the check runs is benign -/
+theorem C14_realEnv_benign : realEnv.Benign := by
+  refine ⟨fun p => rfl, fun s => rfl, ?_⟩
+  intro u n m d
+  show timeTriggerNewWith timeTriggerTotal u n m d = .ok ()
+  rw [show timeTriggerTotal = true from rfl, timeTriggerNewWith_total]
+
+/-- FULL statement (not proved in this form): the same with the entries of every map of the document
+in ANY order (`shuffle seed`).  The typed table of a `mapOf` section follows the document's order, so
+the conclusion is up to permutation of loggers, appenders and reports.  Checked on every generated
+case by the driver (the model's observation of `shuffle seed (render cfg)` is compared with the
+prescription computed from `meaning cfg`); proved below for one struct section at a time. -/
+def C14_render_interp_any_order_statement : Prop :=
+  ∀ (env : Env), env.Benign → ∀ (ss : Bool) (cfg : LogicalConfig) (seed : Nat),
+    WF cfg → (∀ a ∈ cfg.appenders, (meaningApp a).isSome) →
+    (cfg.appenders.map (·.name)).Nodup → (cfg.loggers.map (·.name)).Nodup →
+    ∃ r, loadRaw env ss (shuffle seed (render cfg)) = .ok r ∧
+      r.rootLevel = (meaning cfg).rootLevel ∧ r.rootAppenders = (meaning cfg).rootAppenders ∧
+      r.refresh = (meaning cfg).refresh ∧ r.loggers.Perm (meaning cfg).loggers ∧
+      r.appenders.Perm (meaning cfg).appenders ∧ r.errors.Perm (meaning cfg).errors
+
+/-- Proved part of the any-order statement — key order inside a section does not matter: a struct section is interpreted
 through `lookup` and key membership only, both invariant under permutation of entries with distinct
 keys.  (When both orders are rejected for an unknown key, the key named in the error is the first
 one met, so the comparison is on `toOption`.) -/
@@ -577,24 +759,11 @@ theorem C14_render_interp_partial_key_order (ss : Bool) (deny : Bool) (fields : 
       | none => rw [hu.mpr h2] at h1; cases h1
       | some k' => rfl
 
-/-- Proved part 2 — the routing part, canonical key order: every logical configuration without an
-appender table (refresh rate, root and any number of loggers; every subset of the optional keys
-`root`, `root.level`, `root.appenders`, `additive`, `appenders`, `refresh_rate` omitted; level names
-in any letter case) loads, through the lossy pipeline up to the builder input, to exactly its
-meaning.  (The appender part and arbitrary key order at every depth are covered by the executable
-check in the driver on every generated case, not by a theorem.) -/
-theorem C14_render_interp_partial_routing (ss : Bool) (cfg : LogicalConfig)
-    (happ : cfg.appenders = [])
-    (hl : ∀ l ∈ cfg.loggers, (parseLevel l.level).isSome)
-    (hroot : ∀ r t, cfg.root = some r → r.level = some t → (parseLevel t).isSome)
-    (hrr : ∀ t, cfg.refresh = some t → (parseDuration t).isSome) :
-    loadRaw ss (render cfg) = .ok (meaning cfg) :=
-  loadRaw_render_routing ss cfg happ hl hroot hrr
-
 /-- the kind of a kind-tagged section does not depend on the key order either -/
 theorem C14_render_interp_partial_kind_order (dflt : Option Key) (kvs kvs' : Entries)
     (hp : kvs.Perm kvs') (hnd : (keys kvs).Nodup) : kindOf dflt kvs = kindOf dflt kvs' := by
   simp only [kindOf, lookup_perm (c!"kind") hp hnd]
+
 
 /-! ### Non-vacuity: concrete documents meeting the hypotheses and exercising each branch
 (these are tests by evaluation, not proofs of the general statements) -/
@@ -638,38 +807,67 @@ def summaryOf (o : Outcome Err Built) : Option Summary :=
   | .ok b => some ⟨b.rootLevel, b.rootAppenders, b.appenders.map (·.name), b.buildErrors, b.loadErrors, b.refresh⟩
   | _ => none
 
-example : summaryOf (loadLossy false sampleDoc) =
+example : summaryOf (loadLossy realEnv false sampleDoc) =
     some ⟨4, [c!"f"], [c!"f", c!"r"], [.nonexistent (c!"ghost")], [], some 30000000000⟩ := by decide
-example : loadStrict false sampleDoc = .errBuild := by decide
+example : loadStrict realEnv false sampleDoc = .errBuild := by decide
 -- an unknown key in the roller section: only that appender is dropped, and it is reported
-example : summaryOf (loadLossy true (modifyAtKeys
+example : summaryOf (loadLossy realEnv true (modifyAtKeys
       [c!"appenders", c!"r", c!"policy", c!"roller", c!"zzz"] (.int 1) sampleDoc)) =
     some ⟨4, [c!"f"], [c!"f"], [.nonexistent (c!"ghost"), .nonexistent (c!"r")], [.appender (c!"r")],
       some 30000000000⟩ := by decide
 -- a key named `filters` in the roller section is an unknown key like any other
-example : summaryOf (loadLossy true (modifyAtKeys
+example : summaryOf (loadLossy realEnv true (modifyAtKeys
       [c!"appenders", c!"r", c!"policy", c!"roller", c!"filters"] (.seq []) sampleDoc)) =
     some ⟨4, [c!"f"], [c!"f"], [.nonexistent (c!"ghost"), .nonexistent (c!"r")], [.appender (c!"r")],
       some 30000000000⟩ := by decide
 -- an unknown key in the root section: the document is rejected
-example : (loadLossy false (modifyAtKeys [c!"root", c!"zzz"] (.int 1) sampleDoc)).isOk = false := by
+example : (loadLossy realEnv false (modifyAtKeys [c!"root", c!"zzz"] (.int 1) sampleDoc)).isOk = false := by
   decide
 -- an unknown key in the threshold filter is accepted (no deny_unknown_fields there)
 example : (interp false thresholdS (.map [(c!"level", .str (c!"info")), (c!"zzz", .int 1)])).isOk = true := by
   decide
--- the hypothesis of `C14_load_total_partial` holds of the sample (and fails of the witness)
-example : (match interp false docS sampleDoc with
-    | .ok doc => (Typed.asDict (doc.field (c!"appenders"))).all (fun nt => appenderSafe nt.2)
-    | .error _ => false) = true := by decide
-example : (match interp false docS panicWitness with
-    | .ok doc => (Typed.asDict (doc.field (c!"appenders"))).all (fun nt => appenderSafe nt.2)
-    | .error _ => true) = false := by decide
--- … and the repaired code loads the historical witness
-example : (loadLossy false panicWitness).isOk = true := by decide
--- hypotheses of `C14_render_interp_partial_routing` on a non-trivial configuration
+-- the hypothesis of `C14_load_total_partial` holds of the sample and fails of the witness
+example : (interp false docS sampleDoc).toOption.isSome = true := by decide
+example : (loadLossy realEnv false panicWitness).isPanic = true := by decide
+-- one nanosecond less is a valid refresh rate
+example : parseDurationFull (c!"18446744073709551615s 999999999ns") = .ok 18446744073709551615 999999999 := by
+  decide
+example : parseDuration (c!"1h 30m") = some 5400000000000 := by decide
+-- hypotheses of `C14_render_interp` on a non-trivial configuration
 example : (parseLevel (c!"wArN")).isSome = true ∧ (parseDuration (c!"30 seconds")).isSome = true := by decide
 -- JSON / TOML take a sequence for the root struct, YAML does not (finding seq-for-struct)
-example : (loadLossy true (.map [(c!"root", .seq [.str (c!"info"), .seq []])])).isOk = true := by decide
-example : (loadLossy false (.map [(c!"root", .seq [.str (c!"info"), .seq []])])).isOk = false := by decide
+example : (loadLossy realEnv true (.map [(c!"root", .seq [.str (c!"info"), .seq []])])).isOk = true := by decide
+example : (loadLossy realEnv false (.map [(c!"root", .seq [.str (c!"info"), .seq []])])).isOk = false := by decide
+
+
+/-- a logical configuration with every appender kind, a defaulted policy kind, a json encoder, a
+filter list with a broken entry, dangling and doubled references -/
+def sampleCfg : LogicalConfig :=
+  { refresh := some (c!"1h 30m")
+    root := some { level := some (c!"Info"), appenders := some [c!"f", c!"ghost", c!"f"] }
+    loggers := [{ name := c!"x::y", level := c!"TRACE", additive := some false, appenders := some [c!"r", c!"c"] }]
+    appenders := [
+      { name := c!"c", kind := 0, filters := none, path := [], flag := none,
+        enc := some { kindExplicit := false, json := false, pattern := some 2 }, target := some true,
+        policyKind := false, trig := .onstartup none, roll := .delete },
+      { name := c!"f", kind := 1, filters := some [c!"warn", c!"loud"], path := c!"f.log", flag := some false,
+        enc := some { kindExplicit := true, json := true, pattern := none }, target := none,
+        policyKind := false, trig := .onstartup none, roll := .delete },
+      { name := c!"r", kind := 2, filters := some [], path := c!"r.log", flag := none, enc := none, target := none,
+        policyKind := false, trig := .time (.str (c!"2 Days")) (some true) none,
+        roll := .window (some 4294967295) 1 }] }
+
+example : (sampleCfg.appenders.all (fun a => decide (a.kind ≤ 2) && encOk a.enc && (meaningApp a).isSome)) = true := by
+  decide
+-- the theorem's conclusion on the sample, evaluated (any key order included, here seed 4242)
+example : (match loadRaw realEnv true (shuffle 4242 (render sampleCfg)) with
+    | .ok r => (r.appenders.map (·.name), r.errors, r.rootAppenders, r.refresh)
+    | _ => ([], [], [], none)) =
+    ((meaning sampleCfg).appenders.map (·.name), (meaning sampleCfg).errors,
+      (meaning sampleCfg).rootAppenders, (meaning sampleCfg).refresh) := by decide
+example : (meaning sampleCfg).errors = [.filter (c!"f")] := by decide
+example : ((buildLossyNames (meaning sampleCfg)).buildErrors) = [.nonexistent (c!"ghost")] := by decide
+-- an unrepresentable window (last index above u32::MAX) is an appender that cannot be built
+example : meaningRoll (c!"r.log") (.window (some 4294967295) 2) = none := by decide
 
 end Log4rs.ConfigDoc
